@@ -95,3 +95,15 @@ Proof. exact pin_parfile_new. Qed.
 Print Assumptions C04_src_pin_mod_load_driver.
 Print Assumptions C04_src_pin_parblock_new.
 Print Assumptions C04_src_pin_parfile_new.
+
+(* ---- Driver::copy, translated (the joins): the call returns Ok exactly when the walker and EVERY worker (parfile) /
+   the walker and the dispatcher (parblock) returned Ok: no thread's error is dropped, whichever thread it is ---- *)
+From XcpProofs Require Import XDrivers.
+Theorem C04_src_parfile_copy_reports_every_thread : forall walk workers,
+  x_parfile_copy_result walk workers = None <-> walk = None /\ List.Forall (fun r => r = None) workers.
+Proof. exact x_parfile_copy_ok_iff. Qed.
+Theorem C04_src_parblock_copy_reports_every_thread : forall walk disp,
+  x_parblock_copy_result walk disp = None <-> walk = None /\ disp = None.
+Proof. exact x_parblock_copy_ok_iff. Qed.
+Print Assumptions C04_src_parfile_copy_reports_every_thread.
+Print Assumptions C04_src_parblock_copy_reports_every_thread.
